@@ -49,6 +49,9 @@ POSITIONS = {
     "c-trailers": (True, "resp-headers", "trailers", c14.BASES["trailers"]),
     "push": (True, "open", "push", c14.BASES["push"]),
     "pushed-response": (True, "reserved-remote", "response", c14.BASES["response"]),
+    # the same block types when this endpoint has already sent its own trailers on the stream
+    "response-after-own-trailers": (True, "own-trailers-sent", "response", c14.BASES["response"]),
+    "s-trailers-after-own-trailers": (False, "own-trailers-sent", "trailers", c14.BASES["trailers"]),
 }
 CFGS = [(v, n, e) for v in (True, False) for n in (True, False) for e in (None, "utf-8")]
 ALPHABET = "tokens: C14 alphabet + %r; positions %s; encodings of the block: incremental-indexing and never-indexed literals" % (EXTRA, sorted(POSITIONS))
@@ -77,9 +80,9 @@ def lists_for(pos, tokset, dist, part):
 
 
 def frames_for(pos, block):
-    if pos in ("request", "response", "info"):
+    if pos in ("request", "response", "info", "response-after-own-trailers"):
         return [wire.headers(1, block)]
-    if pos in ("s-trailers", "c-trailers"):
+    if pos in ("s-trailers", "c-trailers", "s-trailers-after-own-trailers"):
         return [wire.headers(1, block, es=True)]
     if pos == "push":
         return [wire.push_promise(1, 2, block)]
@@ -238,7 +241,7 @@ def run(ctx):
             nd1 = len(lists_for(pos, "full", 1, "d1"))
             total += nrest + nd1
             ns = max(1, nrest // 1500)
-            for i in range(ns):
+            for i in range(ns if not pos.endswith("after-own-trailers") else 0):      # those two positions: distance 1 only
                 jobs.append({"pos": pos, "cfg": list(cfg), "tokset": tokset, "dist": 2, "part": "rest", "shard": i, "nshards": ns,
                              "forms": ["ni"]})
             jobs.append({"pos": pos, "cfg": list(cfg), "tokset": "full", "dist": 1, "part": "d1", "shard": 0, "nshards": 1,
